@@ -3,6 +3,6 @@
 cd /verif
 for d in seeded/S*/; do
   prop=$(python3 -c "import json;print(json.load(open('$d/meta.json'))['property'])")
-  res=$(sh tools/try_mutant.sh $d/patch.diff $prop 2>&1 | grep -E "^(VIOLATION|OK|INFRA|patch does not apply|repo dirty)" | head -1)
+  res=$(sh tools/try_mutant.sh /verif/${d}patch.diff $prop 2>&1 | grep -E "^(VIOLATION|OK|INFRA|patch does not apply|repo dirty)" | head -1)
   echo "$(basename $d) $prop :: $res"
 done
